@@ -47,6 +47,7 @@ def c18(ctx: Ctx):
         "harness/c18.go: realiser (reflect.StructOf/SliceOf/MapOf/PointerTo + the declared types of harness/c18_types.go, whose "
         "reflection is compared with GoTypes!Defs by TLC) and projector (schema JSON -> abstract schema; numbers -> order codes "
         "of the boundary table written by TLC, compared exactly with math/big)",
+        "numbers are judged on the JSON text encoding/json writes: the boundary table holds the integer bounds and, for the float kinds, +-MaxFloat32 as 3.4028235e+38 (above the exact float64(MaxFloat32), also a point), +-MaxFloat64 and the smallest denormals",
         "values: a covering list per type (every leaf runs through its boundary values, every pointer/slice/map through nil/empty "
         "and non-empty; at most 6 per type), recursive values unfolded to depth 2 - the mutually recursive families to depth 7 with at most 8 values, so that a cycle of length 3 is passed twice; 64-bit int",
         "reflect cannot create named or method-carrying types nor unexported fields: recursion, component names, defined non-struct types "
